@@ -179,15 +179,27 @@ func execStream(w *run.W, a *streamArgs) {
 			return
 		}
 		if o1.failed() {
+			// Both calls failed: they "fail together".  Which error they return is error
+			// identity and outside the property, with one exception: at the clean end of a
+			// valid, complete stream the sentinel must be io.EOF on both sides, so there an
+			// io.EOF on one side only is a disagreement.  (Two equal non-EOF errors on a
+			// clean stream are legitimate: Decode where no value is next, e.g. at a closing
+			// bracket, or a semantic error such as a number out of range.)
 			w.Count(name+"_stream_both_fail", 1)
-			if cleanStream {
-				// a valid complete stream can only end with io.EOF, on both sides
-				if o1.err != io.EOF || o2.err != io.EOF {
-					report(map[string]string{"op": name, "what": "clean-end-not-EOF", "std_eof": fmt.Sprint(o1.err == io.EOF), "v1_eof": fmt.Sprint(o2.err == io.EOF)}, "%s at the clean end of the stream: classic %v, v1 %v", name, o1, o2)
-					return
+			e1, e2 := o1.panic == nil && o1.err == io.EOF, o2.panic == nil && o2.err == io.EOF
+			switch {
+			case e1 && e2:
+				if cleanStream {
+					w.Count("stream_clean_ends", 1)
+					flush()
 				}
-				w.Count("stream_clean_ends", 1)
-				flush()
+			case e1 != e2 && cleanStream:
+				w.Count(name+"_stream_disagree", 1)
+				report(map[string]string{"op": name, "what": "eof-on-one-side-only", "std_eof": fmt.Sprint(e1), "v1_eof": fmt.Sprint(e2), "at": pos}, "%s: classic %v, v1 %v", name, o1, o2)
+			case e1 != e2:
+				w.Count("stream_sentinel_identity_differs_on_damaged_input", 1)
+			default:
+				w.Count("stream_both_fail_not_eof", 1)
 			}
 			return
 		}
